@@ -19,7 +19,7 @@ ASSUMPTIONS = ['freshness rules of DESIGN 2.1 (meek-prf snapshots after an exclu
                'the candidate named by a defeat action still carries keep factor 1 in that action\'s snapshot']
 MIN_COUNTERS = {'counts_judged': 200, 'fresh_snapshots_checked': 1000, 'omega_exits_checked': 100, 'exclusions_checked': 200,
                 'kf_values_checked': 5000}
-WEIGHTS = dict(G1=4, G2=2, G3=1, G4=2, G6=4, G7=1, G10=1)
+WEIGHTS = dict(G1=4, G2=2, G3=1, G4=2, G6=4, G7=1, G10=1, G11=2)
 ANCHOR_FILES = ['droop/rules/meek.py', 'droop/rules/meek_prf.py', 'droop/rules/electionmethods.py']
 
 DIV_CALLS = [0]
